@@ -62,10 +62,19 @@ fn run_seq(seq: &[Op]) -> Result<(), (String, String)> {
                     Ok(_) => return Err("size 4097 accepted".into()),
                     Err(_) => None,
                 },
-                Op::CreateNonDividing => match Buffer::<[u8; 3]>::new(PAGE) {
-                    Ok(_) => return Err("element size 3 accepted for a 4096 byte buffer".into()),
-                    Err(_) => None,
-                },
+                Op::CreateNonDividing => {
+                    if Buffer::<[u8; 3]>::new(PAGE).is_ok() {
+                        return Err("element size 3 accepted for a 4096 byte buffer".into());
+                    }
+                    // Divides the doubled mapping, not the buffer.
+                    if Buffer::<[u8; 8192]>::new(3 * PAGE).is_ok() {
+                        return Err("element size 8192 accepted for a 12288 byte buffer".into());
+                    }
+                    if Buffer::<[u8; 8192]>::new(PAGE).is_ok() {
+                        return Err("element size 8192 accepted for a 4096 byte buffer".into());
+                    }
+                    None
+                }
                 _ => None,
             })
         });
